@@ -230,3 +230,6 @@ def run(ctx):
     for kind in XC.TRACING:
         ctx.guarded(r, XC.check_choice_protocol, kind)
     ctx.guarded(r, XC.check_strictness)
+    # a choice clause records its entry only if the tape's op reaches that clause: the shared lowering loop must hand
+    # every min / max / and / or to its own builder (C20j-3: a `lhs == rhs` peephole emitting a plain copy)
+    ctx.include('C02', 'every choice op of the tape must reach the clause that records its choice', only=('R1',))
